@@ -91,16 +91,14 @@ class Finders:
         if getattr(line, method)(dict_or_line, ["record_type","name"])]
 
   def _search_duplicate(self, gfa_line):
-    if gfa_line.record_type == "L":
-      previous = self._search_link(gfa_line.oriented_from,
-                                   gfa_line.oriented_to, gfa_line.alignment)
-      if previous is not None:
-        return previous
+    previous = None
     if gfa_line.record_type in self.RECORDS_WITH_NAME and \
         gfa_line.__class__.NAME_FIELD is not None:
-      return self.line(gfa_line.name)
-    else:
-      return None
+      previous = self.line(gfa_line.name)
+    if previous is None and gfa_line.record_type == "L":
+      previous = self._search_link(gfa_line.oriented_from,
+                                   gfa_line.oriented_to, gfa_line.alignment)
+    return previous
 
   def _search_link(self, orseg1, orseg2, cigar):
     s = self.segment(orseg1.line)
